@@ -1299,6 +1299,10 @@ class Interp:
                         if len(v) != len(names):
                             raise EvalRaise("ValueError", "unpack")
                         return v[names.index(name)]
+            import builtins as _b
+            if getattr(self.sc, "real_objects", False) and not hasattr(_b, name):
+                # whole programs: a name that is neither local, nor bound in the module, nor a builtin does not exist
+                raise EvalRaise("NameError", f"name '{name}' is not defined")
             raise AnalysisError(f"circuit evaluation: unresolved name {name}")
         return self.global_value(r, name)
 
